@@ -574,8 +574,9 @@ func checkUnorderedArgs(p *Prog, r *Report, oa *orderAnalysis, rs *reachSets) {
 // compares concatenations of fields (Type+"::"+ID) is not injective — `Org::Unit::"x"` and `Org::"Unit::x"` tie — and tied
 // elements keep the order the map iteration gave them. Comparators must compare the key itself, an injective rendering
 // of it (String()/MarshalCedar()), or its fields one after the other.
-func checkTotalOrderComparators(p *Prog, r *Report) {
-	const rule = "R14.4-total-order"
+func checkTotalOrderComparators(p *Prog, r *Report) { checkTotalOrderComparatorsAs(p, r, "R14.4-total-order") }
+
+func checkTotalOrderComparatorsAs(p *Prog, r *Report, rule string) {
 	n := 0
 	for _, fn := range p.Funcs {
 		if testSupportPkgs[fnPkgPath(fn)] {
